@@ -47,6 +47,7 @@ type Config struct {
 	MaxSteps         int           // scheduler steps per run
 	MaxSimTime       time.Duration // simulated time per run (no-progress bound)
 	KeepLog          bool
+	DrainTime        time.Duration // simulated time to let pass at shutdown (background goroutines of dependencies)
 }
 
 // Failure is one oracle violation (or simulator-level finding) of a run.
@@ -379,6 +380,12 @@ func (s *Sim) stop() {
 	s.mu.Lock()
 	s.shutdown = true
 	s.mu.Unlock()
+	defer func() {
+		if s.cfg.DrainTime > 0 {
+			time.Sleep(s.cfg.DrainTime)
+			synctest.Wait()
+		}
+	}()
 	for round := 0; round < 40; round++ {
 		synctest.Wait()
 		s.mu.Lock()
